@@ -553,7 +553,9 @@ Definition run_writer_case (toks : list (list byte)) : list byte :=
       let head := if is_dash ht then [] else unhex ht in
       let seq := if is_dash st then [] else unhex st in
       let qual := if is_dash qt then [] else unhex qt in
-      let w := undec wt in
+      (* width "M" = usize::MAX ("never wrap"), "H" = isize::MAX: any width above the sequence length behaves like
+         length + 1 (no machine-integer arithmetic is modelled; the harness passes the real value) *)
+      let w := match wt with [77] | [72] => S (length seq) | _ => undec wt end in
       let cks := chunk_by (map undec (list_or_empty ct)) seq in
       let '(id, desc) := split_sp head in
       [119; 114; 32; 116; 111; 61] ++ hex (w_to head seq)                    (* wr to= *)
